@@ -67,6 +67,14 @@ CLAIMED['C03'] = dict(
     note='Stubs: Func::run (recorder), Func::try_chain (arbitrary relation). Outside: longer chains, evaluation order of operand/operator expressions in Expr::Chain and its single-operator fast path, '
          'LvalueChainEvaluator, Func::ChainSection, which builtins declare themselves chainable.',
     design='§7 C03', technique='symbolic execution of rustc MIR + SMT (z3), reference semantics evaluated under path conditions')
+CLAIMED['C11'] = dict(
+    text='Bounded symbolic model checking of ONE next() step from an arbitrary representation-valid state (so every position reached by dropping a prefix is covered): '
+         'Range with start/end/step over all of Z in both representations (None <=> empty, yields start, advances by step, len == element count), Permutations / Combinations / '
+         'Subsequences / CartesianPower over base lists of length 0..3 (quick) / 0..4 (yielded selection, successor in the documented order, closed-form len drops by one), Cycle; '
+         'and the trait default methods Stream::{len, force, pythonic_index_isize, pythonic_slice, reversed} plus WrappedVec against the list of remaining elements with the '
+         'index and both slice bounds over all of isize; the cycle constructor rejects an empty base.',
+    note='Trusted: num-bigint contract, eager in-order evaluation of the iterator adaptors inside the kernels. Outside: lazy map/filter/zip/iterate adaptors (call the evaluator), counts beyond usize, Repeat, constructor builtins other than cycle.',
+    design='§7 C11', technique='symbolic execution of rustc MIR + SMT (z3); one-step induction over stream states')
 NOT_APPLICABLE = {
  'C13': 'sequence library vs executable specification: the deciding content is std collections glued by one-line closures over whole sequences; not encodable as a bounded solver query over noulith code (DESIGN §9); parts decided under C08/C09/C10/C11/C14',
  'C17': 'freeze: semantic equivalence of two recursive traversals over programs; a bounded solver query cannot carry it (DESIGN §9)',
